@@ -115,7 +115,9 @@ def render(d, r, cfg):
         for k, wd in enumerate(words):
             s += wd
             if k < len(words) - 1:
-                s += " \\\n  " if (cfg.get("continuations", True) and r.random() < 0.1) else " "
+                # a continuation: backslash, optionally blanks (older writers put one), end of line
+                s += (" \\" + r.choice(["", "", " ", "  ", "\t"]) + "\n  ") if (
+                    cfg.get("continuations", True) and r.random() < 0.1) else " "
         return s
 
     def bb_text(bb):
